@@ -144,4 +144,6 @@ def main(tier: str) -> int:
         ev = tr[v["l"] - 1]
         run.violation(f"{v['clause']}|{ev['op']['op']}|{ev['op'].get('tag', '')}",
                       {"kind": v["clause"], "event": ev, "pre_xml": ml.tokens_xml(ev["pre"]), "history": [e["op"] for e in tr[: v["l"]]]})
+    # the repository's own tests as traces: every set_span / set_link / mark / note insertion they make keeps the text
+    ml.run_harvest_part(run, ("insert", "strip"), "markup")
     return run.finish()
